@@ -36,6 +36,24 @@ destination to `hash.Sum`, `BlockMode.CryptBlocks`, `binary.PutUintNN`, `io.Read
 nonces, keys and builder arguments stay as the caller left them. -/
 theorem C20_parameters_read_only : Footprint.paramWrites = [] := by decide
 
+/-- the five places where the pinned tree keeps a reference-typed argument by design: the header value handed to
+`DecodeDecrypt` becomes the header of the returned message; `ParseHeader` / `NewHeader` keep the payload octets
+they are given (a header is a view of the datagram; the payloads decoded from it are copies: `C20_generated`);
+`NewMessage` adopts the payload container; `BuildDeletePayload` keeps the SPI list (observation in DESIGN 12.2). -/
+def c20DocumentedRetained : List (String × String × String) :=
+  [("ike.DecodeDecrypt", "ikeHeader", "ikeMsg.IKEHeader"),
+   ("message.IKEPayloadContainer.BuildDeletePayload", "spis", "deletePayload.SPIs"),
+   ("message.NewHeader", "payloadBytes", "literal.PayloadBytes"),
+   ("message.ParseHeader", "b", "literal.PayloadBytes"),
+   ("message.NewMessage", "payloads", "literal.Payloads")]
+
+/-- **arguments are not remembered** (regenerated fact `Footprint.paramRetained`): apart from the five documented
+places no function stores a pointer, slice or map parameter (or a reslice or a local alias of one) into a field, a
+package-level variable or an element of something that outlives the call.  Keys, nonces, identities, exponents,
+attribute values and builder arguments can be wiped or refilled by the caller as soon as the call returns. -/
+theorem C20_arguments_not_retained :
+    ∀ r ∈ Footprint.paramRetained, r ∈ c20DocumentedRetained := by decide
+
 /-- non-vacuity: the regenerated list is not empty on the pinned tree (the documented site is found) -/
 example : Footprint.foreignAppends ≠ [] := by decide
 
